@@ -116,6 +116,16 @@ RespondStale(i, form) ==
   /\ act' = A("RespondStale", (IF form = "ok" THEN 0 ELSE 1), stale[i].kind, stale[i].key)
   /\ UNCHANGED <<ep, acc, hs, nextId, calls, sent, order, queue, srv, deliv, run, had>>
 
+\* the service writes a headers notification, the next tx, the next tx update and an in-sync message in one go (a new block with
+\* its confirmations): the handlers get them in that order
+BurstSeq(b) == <<[kind |-> "hdrs", id |-> b]>>
+               \o (IF acc THEN <<[kind |-> "tx", id |-> nextId], [kind |-> "upd", id |-> nextId + 1]>> ELSE <<>>)
+               \o <<[kind |-> "insync", id |-> 0]>>
+Burst(b) ==
+  /\ Step /\ Len(deliv) + 4 <= MaxNote
+  /\ deliv' = deliv \o BurstSeq(b) /\ nextId' = IF acc THEN nextId + 2 ELSE nextId
+  /\ act' = A("Burst", b, "", 0) /\ UNCHANGED <<ep, acc, hs, calls, sent, order, queue, stale, srv, run, had>>
+
 SubNames == {"subscribe_push_data", "unsubscribe_push_data", "subscribe_tx", "unsubscribe_tx", "subscribe_outputs", "unsubscribe_outputs",
              "subscribe_headers", "unsubscribe_headers", "subscribe_contracts", "unsubscribe_contracts"}
 Subscribe(m) ==
@@ -155,6 +165,7 @@ Next == \/ \E v \in {"valid", "wrongkey", "otherhash", "badsig", "counts", "repl
         \/ TimeoutAll
         \/ \E kind \in {"tx", "upd", "insync", "hdrs"}, id \in 1..5 : Notify(kind, id)
         \/ (\E m \in Subs : Subscribe(m))
+        \/ (\E b \in {7} : Burst(b))
         \/ Drop \/ Stop
 Spec == Init /\ [][Next]_vars
 
@@ -191,11 +202,16 @@ DropP(s, t, e) == (e.a = "Drop") => (t.nextId = s.nextId /\ t.deliv = s.deliv /\
 FlushP(s, t, e) == ((e.a = "Ready") \/ (e.a = "Accept" /\ e.kind = "valid" /\ ~Full)) =>                                   \* C18: queued requests go out with the handshake
    \A k \in Slots : t.calls[k].st = "pending" => t.sent[k]
 WrittenP(t) == \A k \in Slots : (t.calls[k].st = "done" /\ t.calls[k].res \in {"ok", "reject"}) => t.sent[k]               \* C18: no answer without a written request
+BurstP(s, t, e) == (e.a = "Burst") =>                                                                                       \* C17: order across notification kinds
+   /\ t.deliv = s.deliv \o <<[kind |-> "hdrs", id |-> e.k]>>
+                       \o (IF s.acc THEN <<[kind |-> "tx", id |-> s.nextId], [kind |-> "upd", id |-> s.nextId + 1]>> ELSE <<>>)
+                       \o <<[kind |-> "insync", id |-> 0]>>
+   /\ t.nextId = IF s.acc THEN s.nextId + 2 ELSE s.nextId
 SubscribeP(s, t, e) == (e.a = "Subscribe") => t.srv = Append(s.srv, [t |-> e.kind, key |-> -1, hs |-> s.hs])               \* C18: subscriptions do not wait
 QuietP(s, t, e) == (e.a \in {"Call", "Respond", "RespondStale", "Timeout", "Stop", "Subscribe"} /\ ~(e.a = "Respond" /\ s.calls[e.k].kind = "GetHeaders"))
                      => (t.deliv = s.deliv /\ t.nextId = s.nextId)                                                          \* C17: nothing else reaches handlers
 StepProps == [][AcceptP(S, S', act') /\ NotifyP(S, S', act') /\ RespondP(S, S', act') /\ AnsweredP(S, S', act') /\ TimeoutP(S, S', act')
                 /\ ReadyP(S, S', act') /\ NotifyOtherP(S, S', act') /\ DropP(S, S', act') /\ FlushP(S, S', act') /\ WrittenP(S')
-                /\ QuietP(S, S', act') /\ SubscribeP(S, S', act')]_vars
+                /\ QuietP(S, S', act') /\ SubscribeP(S, S', act') /\ BurstP(S, S', act')]_vars
 RejectProps == [][RejectSurfacesP(S, S', act')]_vars
 =============================================================================
